@@ -93,7 +93,7 @@ def run_ip(case, R):
     names = [o[0] for o in ops]
     faulty = {"replay", "skip", "corrupt", "drop-response", "cancel", "timeout", "reconnect-tape"}
     idx = [i for i, n in enumerate(names) if n in faulty]
-    R.nt(bool(idx) and any(n in ("request", "deliver") for n in names[idx[0] + 1:]))
+    R.nt((bool(idx) and any(n in ("request", "deliver") for n in names[idx[0] + 1:])) or ("empty-frame" in names and "replay" in names))
     for n in set(names):
         R.cls("ip:" + n)
 
@@ -173,6 +173,18 @@ def run_ip(case, R):
                     msg = b"EVENT/1.0 200 OK\r\nContent-Length: %d\r\n\r\n" % len(body) + body
                     wire, _ = enc_frames(conn, msg, [1024])
                     conn.send_wire(wire)
+                elif name == "empty-frame":
+                    # a block with an empty plaintext: legal framing, consumes the accessory's nonce like any other block
+                    if conn is None:
+                        raise Pruned
+                    import struct as _struct
+                    from vlib import refhap as _ref
+                    aad = _struct.pack("<H", 0)
+                    tag = _ref.aead_enc(conn.a2c_key, _ref.nonce(ctr=conn.a2c), b"", aad)
+                    conn.a2c += 1
+                    simnet.AccConn._c06_registry.setdefault(conn.a2c_key, []).append(tag)
+                    conn.sent_frames.append(aad + tag)
+                    conn.send_wire(aad + tag)
                 elif name == "drop-response":
                     if conn is None or not any(c is conn for c, _ in pending):
                         raise Pruned
@@ -242,14 +254,14 @@ def run_ip_case(case, R):
 
 
 ALPHA = [("request", 10), ("request", 2500), ("deliver", 5, 1024), ("deliver", 1500, 600), ("replay", 0), ("replay", 3), ("skip", 5, 1024, 0),
-         ("corrupt", 5, 1024, 7), ("event",), ("drop-response",), ("cancel",), ("timeout",), ("reconnect",), ("reconnect-tape",)]
+         ("corrupt", 5, 1024, 7), ("event",), ("drop-response",), ("cancel",), ("timeout",), ("reconnect",), ("reconnect-tape",), ("empty-frame",)]
 
 
 def enum_ip(tier):
     depth = 4 if tier == "quick" else 5
     for d in range(1, depth + 1):
         for seq in itertools.product(ALPHA, repeat=d):
-            if seq[0][0] not in ("request", "event", "replay", "reconnect", "reconnect-tape"):
+            if seq[0][0] not in ("request", "event", "replay", "reconnect", "reconnect-tape", "empty-frame"):
                 continue
             yield {"ops": [list(o) for o in seq]}
 
@@ -259,7 +271,7 @@ def ip_histories(draw):
     n = draw(st.integers(3, 40))
     ops = []
     for _ in range(n):
-        name = draw(st.sampled_from(["request", "request", "deliver", "deliver", "deliver", "replay", "skip", "corrupt", "event", "drop-response", "cancel", "timeout", "reconnect", "reconnect-tape"]))
+        name = draw(st.sampled_from(["request", "request", "deliver", "deliver", "deliver", "replay", "skip", "corrupt", "event", "drop-response", "cancel", "timeout", "reconnect", "reconnect-tape", "empty-frame"]))
         if name == "request":
             ops.append([name, draw(st.sampled_from([1, 10, 1000, 1024, 2500, 5000]))])
         elif name in ("deliver", "skip", "corrupt"):
@@ -272,7 +284,7 @@ def ip_histories(draw):
 
 
 LAYERS = [
-    Layer("ip-dfs", run_ip_case, enumerate=enum_ip, exhaustive=True, space="all event sequences over 14 events to depth 4 (quick) / 5 (thorough) that start with a request, event, replay or reconnect", min_nontrivial=100),
+    Layer("ip-dfs", run_ip_case, enumerate=enum_ip, exhaustive=True, space="all event sequences over 15 events to depth 4 (quick) / 5 (thorough) that start with a request, event, replay or reconnect", min_nontrivial=100),
     Layer("ip-generated", run_ip_case, strategy=ip_histories, n={"quick": 4000, "thorough": 60000}),
 ]
 from props.ble_layers import C06_LAYERS as _BLE  # noqa: E402
